@@ -47,7 +47,7 @@ impl Property for C15 {
         "Cases: (zoo type, string, binary|hex): valid digit strings (mixed case, leading zeros, empty) of 0..C+4 characters (<=300 for Bvd/Bv, both sides of the 128-bit inline limit), and strings with one or several offending characters at generated positions drawn from ASCII near-misses (2 g G space + _ x -) and non-ASCII (e-acute, Arabic-Indic and full-width digits, emoji, full-width A); plus parse(format(v)) round trips for {:b},{:x},{:X}. Oracle: reference parser over chars(): all valid and fitting -> length |s| (4|s|), first character most significant; fitting with an offending character -> InvalidFormat(index of the first one, in characters); all valid and too long -> NotEnoughCapacity; too long and invalid -> some Err. Enumerated: every error position for every string length <=min(C+1,140) per type and radix; all binary strings of length <=10. Non-trivial: |s|>0 and (leading zeros, or an error position other than 0, or a length within 1 character of the capacity / inline limit, or mixed case). Distinct by hash of the case.".into()
     }
     fn random_cases(&self, tier: Tier) -> u64 {
-        tier.pick(250000, 1000000)
+        tier.pick(250000, 8000000)
     }
     fn strategy(&self, tier: Tier) -> BoxedStrategy<C15Case> {
         let lmax = tier.pick(300, 600);
@@ -81,7 +81,7 @@ impl Property for C15 {
     fn exhaustive_subspaces(&self, _tier: Tier) -> Vec<String> {
         vec![
             "every position of a single offending character in valid strings of every length <=min(capacity+1,140) characters, per type and radix, for 3 offending characters (ASCII, 2-byte, 4-byte)".into(),
-            "all binary strings of length <=10 on all 18 types; all hex strings of length <=2".into(),
+            "all binary strings of length <=10 on all 19 types; all hex strings of length <=2".into(),
         ]
     }
     fn enumerate(&self, _tier: Tier, sh: &mut Shard, f: &mut dyn FnMut(C15Case) -> bool) {
